@@ -331,9 +331,26 @@ impl TypeChecker {
 
     /// Ensure imported items are public in the dependency module.
     fn validate_import_visibility(&mut self, import: &ImportDecl, span: Span) {
-        let ImportKind::From { module, items } = &import.kind else {
-            return;
+        // `from module import a, b` and the Rust-style `import module::item` both name items of another module.
+        let (module, items): (ImportPath, Vec<ImportItem>) = match &import.kind {
+            ImportKind::From { module, items } => (module.clone(), items.clone()),
+            ImportKind::Module(path) if path.segments.len() > 1 => {
+                let mut module = path.clone();
+                let Some(item) = module.segments.pop() else {
+                    return;
+                };
+                (
+                    module,
+                    vec![ImportItem {
+                        name: item,
+                        alias: None,
+                    }],
+                )
+            }
+            _ => return,
         };
+        let module = &module;
+        let items = &items;
 
         // Only check modules that were pre-imported; skip std and unresolved ones.
         let module_name = module.segments.join("_");
